@@ -55,8 +55,12 @@ REF_OUT_MODE = [
     [0, 1, 2, 2, 4, 5],
     [5, 5, 5, 5, 5, 5],
 ]
-DOM = {"bw": range(1, 11), "bx": range(1, 11), "iw": range(0, 7),
-       "ix": range(0, 7)}
+DOM_QUICK = {"bw": range(1, 11), "bx": range(1, 11), "iw": range(0, 7),
+             "ix": range(0, 7)}
+# thorough: witness search for non-identical forms over all widths up to 32
+DOM_THOROUGH = {"bw": range(1, 33), "bx": range(1, 33), "iw": range(0, 17),
+                "ix": range(0, 17)}
+DOM = dict(DOM_QUICK)
 SWAP = {("sym", "bw"): NF.sym("bx"), ("sym", "bx"): NF.sym("bw"),
         ("sym", "iw"): NF.sym("ix"), ("sym", "ix"): NF.sym("iw")}
 
@@ -74,6 +78,8 @@ def build(repo, kw, kx):
 
 
 def run(rep, repo, tier):
+  DOM.clear()
+  DOM.update(DOM_THOROUGH if tier == "thorough" else DOM_QUICK)
   mf = repo.module(MF)
   unit_t = "%s::MultiplierFactory.multiplier_impl_table" % mf.relpath
   rep.unit(unit_t)
